@@ -40,6 +40,9 @@ type throwEvent struct {
 	// running is set once the node's goroutine drains mch; until then nobody
 	// listens and events are dropped instead of piling up in the inbox
 	running atomic.Bool
+	// gone is closed when the node's goroutine ends: a sender that found it
+	// running a moment ago is not left waiting at a full inbox
+	gone chan struct{}
 }
 
 func newThrowEvent(wr *wiring, element *schema.ThrowEvent, idGenerator id.IGenerator) (evt *throwEvent, err error) {
@@ -49,6 +52,7 @@ func newThrowEvent(wr *wiring, element *schema.ThrowEvent, idGenerator id.IGener
 		idGenerator:     idGenerator,
 		mch:             make(chan imessage, len(wr.incoming)*2+1),
 		activated:       atomic.Bool{},
+		gone:            make(chan struct{}),
 		awaitingActions: make([]chan IAction, 0),
 		satisfier:       logic.NewThrowEventSatisfier(element, wr.eventDefinitionInstanceBuilder),
 	}
@@ -65,6 +69,7 @@ func (evt *throwEvent) run(ctx context.Context, sender tracing.ISenderHandle) {
 	// nobody drains the inbox any more: events are dropped instead of blocking
 	// their sender
 	defer evt.running.Store(false)
+	defer close(evt.gone)
 
 	for {
 		select {
@@ -99,7 +104,11 @@ func (evt *throwEvent) ConsumeEvent(ev event.IEvent) (result event.ConsumptionRe
 		result = event.Consumed
 		return
 	}
-	evt.mch <- eventMessage{event: ev}
+	select {
+	case evt.mch <- eventMessage{event: ev}:
+	case <-evt.gone:
+		// the node ended with the instance in the meantime
+	}
 	result = event.Consumed
 	return
 }
